@@ -70,6 +70,9 @@ impl Gen {
             2 => 24,
             3 => 255.min(max),
             4 => 256.min(max),
+            // interior lengths (not at an encoding boundary) and the next boundaries up
+            5 => self.rng.below(max + 1),
+            6 => (*self.pick(&[100usize, 1000, 4095, 4096, 4097, 65535, 65536])).min(max),
             _ => self.rng.below(max.min(40) + 1),
         };
         (0..n).map(|_| self.rng.byte()).collect()
@@ -222,7 +225,8 @@ impl Gen {
             let v = if self.coin(60) { self.signature_item(depth - 1, fault_pct) } else { jarr((0..1 + self.rng.below(2)).map(|_| self.signature_item(depth - 1, fault_pct)).collect()) };
             m.push((jint(7), v));
         }
-        let extras = self.rng.below(4);
+        // now and then more extras than any small fixed-size structure holds
+        let extras = if self.coin(4) { 8 + self.rng.below(20) } else { self.rng.below(4) };
         for _ in 0..extras {
             let mut l = self.label();
             // keep extras off the standard labels unless a fault is wanted
@@ -654,6 +658,8 @@ impl Gen {
     fn aad(&mut self) -> J {
         let n = *self.pick(&[0usize, 1, 23, 24, 255, 256, 65535, 65536, 7, 100]);
         let n = if n > 300 && !self.coin(10) { 12 } else { n };
+        // every fifth length is an arbitrary interior one (no encoding boundary), now and then a large one
+        let n = if self.coin(20) { if self.coin(15) { 257 + self.rng.below(9000) } else { self.rng.below(300) } } else { n };
         let b = self.rng.byte();
         jbytes(&vec![b; n])
     }
